@@ -394,6 +394,7 @@ def post(tier, verif_seed, ok, extras):
     n = len(mine)
     viol = []
     compared = 0
+    skipped = 0
     samples = []
     here = os.path.dirname(os.path.dirname(os.path.abspath(__file__)))
     procs = []
@@ -417,8 +418,13 @@ def post(tier, verif_seed, ok, extras):
                 raise RuntimeError('hash seed not applied')
             for idx, dg in mine.items():
                 od = other['digests'].get(idx)
-                if od is None or 'harness_error' in od:
-                    raise RuntimeError('cross-hash digests missing for group %s: %s' % (idx, od))
+                if od is not None and 'harness_error' in od:
+                    raise RuntimeError('cross-hash interpreter failed on group %s: %s' % (idx, od))
+                if not od or not dg:
+                    # the group ended early there or here (violation / step cap): its digests
+                    # are incomplete and the in-process clauses already judged it
+                    skipped += 1
+                    continue
                 compared += 1
                 diff = [k for k in set(dg) | set(od) if dg.get(k) != od.get(k)]
                 if diff:
@@ -431,5 +437,6 @@ def post(tier, verif_seed, ok, extras):
         import shutil
         shutil.rmtree(tmpd, ignore_errors=True)
     info = {'cross_hashseed_groups': n, 'cross_hashseed_comparisons': compared,
+            'cross_hashseed_groups_skipped_incomplete': skipped,
             'hashseeds': ['0', '1', '2'], 'samples': samples}
     return viol[:5], info
